@@ -2,11 +2,14 @@
 
 spec         : specs/Resolver.tla  (Matches, Final(plan), PlanViolations = ValidPlan's clauses,
                brute-force oracle Resolvable, policy domain Robust — shared with C16)
-MC           : Resolver_MC - a reference resolver (pick any open requirement, take a candidate,
-               replace installed slot-mates only when nothing selected them for something the
-               newcomer does not satisfy) over every world of a bounded family; invariants
-               Done => ValidPlan, Done => Resolvable, policy theorems of the Robust domain.
-               Resolver_Laws — constant-level laws of the oracle.
+MC           : Resolver_MC - a reference resolver (pick any open requirement, take the first addable
+               candidate in strategy order, replace installed slot-mates only when nothing they were
+               selected for is lost) over every world of a bounded family (Resolver_Worlds);
+               invariants Sound (done => ValidPlan), OracleAgrees (done => Resolvable), NotesHold,
+               RobustNeverFails / RobustPolicy (C16).  Thorough: the same model without the replace
+               guard must be refuted by TLC (it reproduces the unsound plans of the unpatched plan.py).
+               Resolver_Laws (evaluated in the export run): the clause-wise judge and the brute-force
+               oracle agree on every candidate final set; Robust lies within Resolvable; match laws.
 spec -> code : Resolver_Export enumerates the bounded family of worlds; each one is rendered as
                SimpleTree/FakePkg repositories and resolved by the real upgrade / min-install /
                empty-tree resolvers.
@@ -510,6 +513,9 @@ def judge(ck, batch, label, want):
             case = batch.cases[v["tid"]]
             if v["clause"] == "OutsideDomain":
                 stats["outside"] += 1
+                k = f"{e['ev']}{' forced' if e['force'] else ''}"
+                outside = ck.extra.setdefault("plan_state_calls_outside_C17_domain_by_op", {})
+                outside[k] = outside.get(k, 0) + 1
                 continue
             if v["clause"] == "Projection":
                 raise tlc.MachineryError(f"planner projection broken at {e}")
@@ -525,12 +531,12 @@ def judge(ck, batch, label, want):
 def mc_cfg(level, guard=True):
     return (f'SPECIFICATION Spec\nCONSTANTS\n  Level = "{level}"\n  GuardReplace = {"TRUE" if guard else "FALSE"}\n'
             "INVARIANT TypeOK\nINVARIANT Sound\nINVARIANT OracleAgrees\nINVARIANT NotesHold\n"
-            "INVARIANT RobustNeverFails\nINVARIANT RobustUpgrade\nINVARIANT RobustReuse\n")
+            "INVARIANT RobustNeverFails\nINVARIANT RobustPolicy\n")
 
 
 def model_check(ck):
     """the design: reference resolver over the bounded family (shared by C15 and C16)"""
-    level = ck.pick("tiny", "medium")
+    level = ck.pick("tiny", "small")
     ck.mc("Resolver_MC", cfg_text=mc_cfg(level), workers=ck.pick(4, 8), timeout=ck.pick(300, 2400),
           label=f"MC:Resolver_MC Level={level}")
     if not ck.quick:
@@ -561,7 +567,7 @@ def nontrivial(ck, tag, world, kind, o1):
         ck.nontriv((tag, repr(describe(world)), kind))
 
 
-def campaign(ck, want, plan_trace, sizes):
+def campaign(ck, want, plan_trace, sizes, styles=("robust", "friendly", "hostile"), seed=15):
     """spec -> code (exported family) and code -> spec (random worlds); returns policy statistics"""
     n_export, n_random, chunk = sizes
     stats = dict(judged=0, outside=0, ok=0, failed=0, crashed=0)
@@ -590,9 +596,9 @@ def campaign(ck, want, plan_trace, sizes):
     for n, world in enumerate(exported_worlds(ck, n_export)):
         one("x", world, n, dict(direction="spec->code"))
     # 2. seeded random worlds
-    r_ = rng(15)
+    r_ = rng(seed)
     for n in range(n_random):
-        style = ("robust", "friendly", "hostile")[n % 3]
+        style = styles[n % len(styles)]
         one("r", gen_world(r_, style), n, dict(direction="code->spec", style=style))
     flush(batch, f"batch-{nb}")
     return stats
@@ -631,7 +637,7 @@ def run(ck):
     if ck.replay_case:
         return replay(ck, want)
     model_check(ck)
-    stats = campaign(ck, want, plan_trace=True, sizes=ck.pick((60, 90, 100000), (4000, 4000, 1500)))
+    stats = campaign(ck, want, plan_trace=True, sizes=ck.pick((40, 60, 100000), (1200, 1200, 1800)))
     ck.extra["runs"] = stats
     ck.extra["plan_state_calls_outside_C17_domain"] = stats["outside"]
     if stats["ok"] == 0 and not ck.violations:
